@@ -358,4 +358,362 @@ theorem dynLoop_mode_indep [DecidableEq α] [Inhabited α] (rule : Rule1 σ α) 
     · rw [if_neg hpred, if_neg hpred]; rfl
 
 end Values
+
+/-! # Call traces (C09): the rule is `recorder f`, its state is the log of calls -/
+
+section Calls
+variable {α : Type}
+
+abbrev Log (α : Type) := List (List α × Nat × Nat)
+
+/-- All neighbourhood contents that occur when stepping from each of the given rows
+    (same as `C09.occurring`). -/
+def occ [Inhabited α] (r : Nat) (rows : List (List α)) : List (List α) :=
+  rows.flatMap fun row => (List.range row.length).map (Spec.window row r)
+
+theorem occ_nil [Inhabited α] (r : Nat) : occ r ([] : List (List α)) = [] := rfl
+
+theorem occ_cons [Inhabited α] (r : Nat) (row : List α) (rows : List (List α)) :
+    occ r (row :: rows) = (List.range row.length).map (Spec.window row r) ++ occ r rows := by
+  simp [occ]
+
+theorem stepped_succ [Inhabited α] (f : List α → α) (r k : Nat) (cells : List α) :
+    (cells :: Spec.pureRun f r (k + 1) cells).take (k + 1)
+      = cells :: (Spec.pureStep f r cells :: Spec.pureRun f r k (Spec.pureStep f r cells)).take k := by
+  simp [Spec.pureRun]
+
+theorem recorder_pure (f : List α → α) : PureVal (recorder f) f := fun _ _ _ _ => rfl
+
+theorem lookup_none_not_mem [DecidableEq α] {β : Type} (tbl : List (List α × β)) (n : List α)
+    (h : tbl.lookup n = none) : n ∉ tbl.map (·.1) := by
+  intro hm
+  rw [List.lookup_eq_none_iff] at h
+  obtain ⟨p, hp, rfl⟩ := List.mem_map.mp hm
+  have := h p hp
+  simp at this
+
+theorem lookup_some_mem_keys [DecidableEq α] {β : Type} (tbl : List (List α × β)) (n : List α) (v : β)
+    (h : tbl.lookup n = some v) : n ∈ tbl.map (·.1) :=
+  List.mem_map.mpr ⟨(n, v), lookup_mem _ _ _ h, rfl⟩
+
+/-! ## memoize=True -/
+
+/-- The logged neighbourhoods are duplicate-free and are exactly the keys of the table. -/
+def MemoInv (tbl : MemoTable α) (log : Log α) : Prop :=
+  (log.map (·.1)).Nodup ∧ ∀ n, n ∈ log.map (·.1) ↔ n ∈ tbl.map (·.1)
+
+theorem MemoInv_nil : MemoInv ([] : MemoTable α) ([] : Log α) := by
+  refine ⟨List.nodup_nil, ?_⟩
+  intro n; simp
+
+theorem getMemoized_calls [DecidableEq α] (f : List α → α) (n : List α) (c t : Nat)
+    (tbl : MemoTable α) (log : Log α) (hi : MemoInv tbl log) :
+    MemoInv (getMemoized (recorder f) n c t tbl log).2.1 (getMemoized (recorder f) n c t tbl log).2.2 ∧
+    (∀ m, m ∈ (getMemoized (recorder f) n c t tbl log).2.1.map (·.1) ↔ m ∈ tbl.map (·.1) ∨ m = n) ∧
+    (getMemoized (recorder f) n c t tbl log).2.2.length ≤ log.length + 1 := by
+  unfold getMemoized
+  split
+  · rename_i v hv
+    have hk := lookup_some_mem_keys _ _ _ hv
+    refine ⟨hi, ?_, by simp⟩
+    intro m
+    constructor
+    · intro h; exact Or.inl h
+    · rintro (h | rfl)
+      · exact h
+      · exact hk
+  · rename_i hv
+    have hk := lookup_none_not_mem _ _ hv
+    simp only [recorder]
+    refine ⟨⟨?_, ?_⟩, ?_, by simp⟩
+    · rw [List.map_append, List.nodup_append]
+      refine ⟨hi.1, by simp, ?_⟩
+      intro a ha b hb
+      simp only [List.map_cons, List.map_nil, List.mem_singleton] at hb
+      subst hb
+      intro hab; subst hab
+      exact hk ((hi.2 a).mp ha)
+    · intro m
+      simp only [List.map_append, List.mem_append, List.map_cons, List.map_nil,
+        List.mem_cons, List.not_mem_nil, or_false]
+      rw [hi.2 m]
+      exact Or.comm
+    · intro m
+      simp only [List.map_cons, List.mem_cons]
+      constructor
+      · rintro (h | h)
+        · exact Or.inr h
+        · exact Or.inl h
+      · rintro (h | h)
+        · exact Or.inr h
+        · exact Or.inl h
+
+theorem memoLoop_calls [DecidableEq α] (f : List α → α) (t : Nat) :
+    ∀ (ns : List (List α)) (c : Nat) (tbl : MemoTable α) (log : Log α), MemoInv tbl log →
+      MemoInv (memoLoop (recorder f) t ns c tbl log).2.1 (memoLoop (recorder f) t ns c tbl log).2.2 ∧
+      (∀ m, m ∈ (memoLoop (recorder f) t ns c tbl log).2.1.map (·.1) ↔ m ∈ tbl.map (·.1) ∨ m ∈ ns) ∧
+      (memoLoop (recorder f) t ns c tbl log).2.2.length ≤ log.length + ns.length := by
+  intro ns
+  induction ns with
+  | nil =>
+    intro c tbl log hi
+    refine ⟨hi, ?_, by simp [memoLoop]⟩
+    intro m; simp [memoLoop]
+  | cons n rest ih =>
+    intro c tbl log hi
+    obtain ⟨g1, g2, g3⟩ := getMemoized_calls f n c t tbl log hi
+    obtain ⟨i1, i2, i3⟩ := ih (c + 1) _ _ g1
+    simp only [memoLoop]
+    refine ⟨i1, ?_, ?_⟩
+    · intro m
+      rw [i2 m, g2 m, List.mem_cons, or_assoc]
+    · simp only [List.length_cons]; exact Nat.le_trans i3 (by omega)
+
+theorem fixedLoop_memo_calls [DecidableEq α] [Inhabited α] (f : List α → α) (r : Nat) (h1 : 1 ≤ r) :
+    ∀ (k t : Nat) (cells : List α) (cs : Caches α) (log : Log α), r ≤ cells.length →
+      CachesOK f r cs → MemoInv cs.tbl log →
+      MemoInv (fixedLoop .memo (recorder f) r k t cells cs log).2.1.tbl
+        (fixedLoop .memo (recorder f) r k t cells cs log).2.2 ∧
+      (∀ n, n ∈ (fixedLoop .memo (recorder f) r k t cells cs log).2.1.tbl.map (·.1) ↔
+        n ∈ cs.tbl.map (·.1) ∨ n ∈ occ r ((cells :: Spec.pureRun f r k cells).take k)) ∧
+      (fixedLoop .memo (recorder f) r k t cells cs log).2.2.length ≤ log.length + cells.length * k := by
+  intro k
+  induction k with
+  | zero =>
+    intro t cells cs log h2 hc hi
+    refine ⟨hi, ?_, by simp [fixedLoop]⟩
+    intro n; simp [fixedLoop, occ]
+  | succ k ih =>
+    intro t cells cs log h2 hc hi
+    obtain ⟨e1, e2⟩ := step1_pure (recorder f) f (recorder_pure f) .memo (by decide) r cells t cs log h1 h2 hc
+    obtain ⟨m1, m2, m3⟩ := memoLoop_calls f t (neighbourhoods cells r) 0 cs.tbl log hi
+    have hs1 : (step1 .memo (recorder f) r cells t cs log).2.1.tbl
+        = (memoLoop (recorder f) t (neighbourhoods cells r) 0 cs.tbl log).2.1 := rfl
+    have hs2 : (step1 .memo (recorder f) r cells t cs log).2.2
+        = (memoLoop (recorder f) t (neighbourhoods cells r) 0 cs.tbl log).2.2 := rfl
+    rw [← hs1] at m1 m2
+    rw [← hs2] at m1 m3
+    have hnb := C01.neighbourhoods_eq_windows cells r h1 h2
+    have hlen : (Spec.pureStep f r cells).length = cells.length := pureStep_length f r cells
+    obtain ⟨i1, i2, i3⟩ := ih (t + 1) (step1 .memo (recorder f) r cells t cs log).1
+      (step1 .memo (recorder f) r cells t cs log).2.1 (step1 .memo (recorder f) r cells t cs log).2.2
+      (by rw [e1, hlen]; exact h2) e2 m1
+    simp only [fixedLoop]
+    refine ⟨i1, ?_, ?_⟩
+    · intro n
+      rw [i2 n, m2 n, stepped_succ, occ_cons, List.mem_append, hnb, e1, or_assoc]
+    · have hl1 : (step1 .memo (recorder f) r cells t cs log).1.length = cells.length := by
+        rw [e1, hlen]
+      rw [hl1] at i3
+      rw [hnb] at m3
+      simp only [List.length_map, List.length_range] at m3
+      rw [Nat.mul_succ]
+      refine Nat.le_trans i3 ?_
+      omega
+
+/-! ## memoize='recursive' -/
+
+/-- The logged neighbourhoods are duplicate-free and every one of them is a key of the cache. -/
+def RecInv (cache : RecCache α) (log : Log α) : Prop :=
+  (log.map (·.1)).Nodup ∧ ∀ e ∈ log, e.1 ∈ cache.map (·.1)
+
+theorem RecInv_nil : RecInv ([] : RecCache α) ([] : Log α) := by
+  refine ⟨List.nodup_nil, ?_⟩
+  intro e h; cases h
+
+theorem RecInv_cons (cache : RecCache α) (log : Log α) (kv : List α × List α)
+    (h : RecInv cache log) : RecInv (kv :: cache) log :=
+  ⟨h.1, fun e he => by
+    simp only [List.map_cons, List.mem_cons]; exact Or.inr (h.2 e he)⟩
+
+theorem updateRec_calls [DecidableEq α] [Inhabited α] (f : List α → α) (r : Nat) (curr : List α)
+    (t : Nat) (hr : r ≤ curr.length) :
+    ∀ (len lo : Nat) (st : RecSt (Log α) α), 0 < len → RecInv st.cache st.s →
+      ∃ new : Log α, (updateRec (recorder f) r curr t len lo st).s = st.s ++ new ∧
+        RecInv (updateRec (recorder f) r curr t len lo st).cache
+          (updateRec (recorder f) r curr t len lo st).s ∧
+        (∀ e ∈ new, e.1 = Spec.window curr r e.2.1 ∧ lo ≤ e.2.1 ∧ e.2.1 < lo + len ∧ e.2.2 = t) ∧
+        (new.map (·.2.1)).Nodup ∧ new.length ≤ len := by
+  intro len
+  induction len using Nat.strongRecOn with
+  | _ len ih =>
+    intro lo st hlen hi
+    rw [updateRec]
+    simp only
+    split
+    · -- cache hit: no call
+      refine ⟨[], by simp, hi, ?_, List.nodup_nil, by simp⟩
+      intro e he; cases he
+    · rename_i hlk
+      have hk := lookup_none_not_mem _ _ hlk
+      by_cases h1 : len > 1
+      · simp only [h1, dite_true]
+        have hm1 : 0 < len / 2 := by omega
+        have hm2 : len / 2 < len := by omega
+        obtain ⟨new1, a1, a2, a3, a4, a5⟩ := ih (len / 2) hm2 lo st hm1 hi
+        generalize updateRec (recorder f) r curr t (len / 2) lo st = s1 at a1 a2
+        obtain ⟨new2, b1, b2, b3, b4, b5⟩ :=
+          ih (len - len / 2) (by omega) (lo + len / 2) s1 (by omega) a2
+        generalize updateRec (recorder f) r curr t (len - len / 2) (lo + len / 2) s1 = s2 at b1 b2
+        refine ⟨new1 ++ new2, by rw [b1, a1, List.append_assoc], RecInv_cons _ _ _ b2, ?_, ?_, ?_⟩
+        · intro e he
+          rcases List.mem_append.mp he with h | h
+          · obtain ⟨c1, c2, c3, c4⟩ := a3 e h
+            exact ⟨c1, c2, by omega, c4⟩
+          · obtain ⟨c1, c2, c3, c4⟩ := b3 e h
+            exact ⟨c1, by omega, by omega, c4⟩
+        · rw [List.map_append, List.nodup_append]
+          refine ⟨a4, b4, ?_⟩
+          intro x hx y hy
+          obtain ⟨e, he, rfl⟩ := List.mem_map.mp hx
+          obtain ⟨e', he', rfl⟩ := List.mem_map.mp hy
+          have := (a3 e he).2.2.1
+          have := (b3 e' he').2.1
+          omega
+        · rw [List.length_append]; omega
+      · have hl : len = 1 := by omega
+        subst hl
+        simp only [h1, dite_false, recorder]
+        have hkey : wrapTake curr ((lo : Int) - r) (1 + 2 * r) = Spec.window curr r lo :=
+          wrapTake_leaf _ _ _ hr
+        refine ⟨[(wrapTake curr ((lo : Int) - r) (1 + 2 * r), lo, t)], rfl, ⟨?_, ?_⟩, ?_, by simp, by simp⟩
+        · rw [List.map_append, List.nodup_append]
+          refine ⟨hi.1, by simp, ?_⟩
+          intro a ha b hb
+          simp only [List.map_cons, List.map_nil, List.mem_cons, List.not_mem_nil, or_false] at hb
+          subst hb
+          intro hab; subst hab
+          obtain ⟨e, he, hee⟩ := List.mem_map.mp ha
+          exact hk (hee ▸ hi.2 e he)
+        · intro e he
+          simp only [List.map_cons, List.mem_cons]
+          rcases List.mem_append.mp he with h | h
+          · exact Or.inr (hi.2 e h)
+          · simp only [List.mem_cons, List.not_mem_nil, or_false] at h
+            subst h; exact Or.inl rfl
+        · intro e he
+          simp only [List.mem_cons, List.not_mem_nil, or_false] at he
+          subst he
+          exact ⟨hkey, Nat.le_refl _, Nat.lt_succ_self _, rfl⟩
+
+theorem stepRec_calls [DecidableEq α] [Inhabited α] (f : List α → α) (r : Nat) (curr : List α)
+    (t : Nat) (h1 : 1 ≤ r) (hr : r ≤ curr.length) (cache : RecCache α) (log : Log α)
+    (hi : RecInv cache log) :
+    ∃ new : Log α, (stepRec (recorder f) r curr t cache log).s = log ++ new ∧
+      RecInv (stepRec (recorder f) r curr t cache log).cache (stepRec (recorder f) r curr t cache log).s ∧
+      (∀ e ∈ new, e.1 = Spec.window curr r e.2.1 ∧ e.2.1 < curr.length ∧ e.2.2 = t) ∧
+      (new.map (·.2.1)).Nodup ∧ new.length ≤ curr.length := by
+  unfold stepRec
+  simp only
+  have hN : 0 < curr.length := by omega
+  have h2 : curr.length - curr.length / 2 > 0 := by omega
+  rw [if_pos h2]
+  by_cases hm : curr.length / 2 > 0
+  · rw [if_pos hm]
+    obtain ⟨new1, a1, a2, a3, a4, a5⟩ := updateRec_calls f r curr t hr (curr.length / 2) 0
+      ⟨List.replicate curr.length default, cache, log⟩ hm hi
+    generalize updateRec (recorder f) r curr t (curr.length / 2) 0
+      ⟨List.replicate curr.length default, cache, log⟩ = s1 at a1 a2
+    obtain ⟨new2, b1, b2, b3, b4, b5⟩ := updateRec_calls f r curr t hr
+      (curr.length - curr.length / 2) (curr.length / 2) s1 h2 a2
+    simp only at a1
+    refine ⟨new1 ++ new2, by rw [b1, a1, List.append_assoc], b2, ?_, ?_, ?_⟩
+    · intro e he
+      rcases List.mem_append.mp he with h | h
+      · obtain ⟨c1, c2, c3, c4⟩ := a3 e h
+        exact ⟨c1, by omega, c4⟩
+      · obtain ⟨c1, c2, c3, c4⟩ := b3 e h
+        exact ⟨c1, by omega, c4⟩
+    · rw [List.map_append, List.nodup_append]
+      refine ⟨a4, b4, ?_⟩
+      intro x hx y hy
+      obtain ⟨e, he, rfl⟩ := List.mem_map.mp hx
+      obtain ⟨e', he', rfl⟩ := List.mem_map.mp hy
+      have := (a3 e he).2.2.1
+      have := (b3 e' he').2.1
+      omega
+    · rw [List.length_append]; omega
+  · rw [if_neg hm]
+    obtain ⟨new2, b1, b2, b3, b4, b5⟩ := updateRec_calls f r curr t hr
+      (curr.length - curr.length / 2) (curr.length / 2)
+      ⟨List.replicate curr.length default, cache, log⟩ h2 hi
+    refine ⟨new2, b1, b2, ?_, b4, by omega⟩
+    intro e he
+    obtain ⟨c1, c2, c3, c4⟩ := b3 e he
+    exact ⟨c1, by omega, c4⟩
+
+theorem fixedLoop_rec_calls [DecidableEq α] [Inhabited α] (f : List α → α) (r : Nat) (h1 : 1 ≤ r) :
+    ∀ (k t : Nat) (cells : List α) (cs : Caches α) (log : Log α), r ≤ cells.length →
+      CachesOK f r cs → RecInv cs.rc log →
+      ∃ new : Log α, (fixedLoop .recursive (recorder f) r k t cells cs log).2.2 = log ++ new ∧
+        RecInv (fixedLoop .recursive (recorder f) r k t cells cs log).2.1.rc
+          (fixedLoop .recursive (recorder f) r k t cells cs log).2.2 ∧
+        (∀ e ∈ new, e.1 ∈ occ r ((cells :: Spec.pureRun f r k cells).take k) ∧
+          e.2.1 < cells.length ∧ t ≤ e.2.2 ∧ e.2.2 < t + k) ∧
+        (∀ t0, ((new.filter (fun e => e.2.2 = t0)).map (·.2.1)).Nodup) ∧
+        new.length ≤ cells.length * k := by
+  intro k
+  induction k with
+  | zero =>
+    intro t cells cs log h2 hc hi
+    refine ⟨[], by simp [fixedLoop], hi, ?_, ?_, by simp⟩
+    · intro e he; cases he
+    · intro t0; simp
+  | succ k ih =>
+    intro t cells cs log h2 hc hi
+    obtain ⟨e1, e2⟩ := step1_pure (recorder f) f (recorder_pure f) .recursive (by decide) r cells t cs
+      log h1 h2 hc
+    obtain ⟨new1, a1, a2, a3, a4, a5⟩ := stepRec_calls f r cells t h1 h2 cs.rc log hi
+    have hs1 : (step1 .recursive (recorder f) r cells t cs log).2.1.rc
+        = (stepRec (recorder f) r cells t cs.rc log).cache := rfl
+    have hs2 : (step1 .recursive (recorder f) r cells t cs log).2.2
+        = (stepRec (recorder f) r cells t cs.rc log).s := rfl
+    rw [← hs1, ← hs2] at a2
+    rw [← hs2] at a1
+    have hlen : (Spec.pureStep f r cells).length = cells.length := pureStep_length f r cells
+    have hl1 : (step1 .recursive (recorder f) r cells t cs log).1.length = cells.length := by
+      rw [e1, hlen]
+    obtain ⟨new2, b1, b2, b3, b4, b5⟩ := ih (t + 1) (step1 .recursive (recorder f) r cells t cs log).1
+      (step1 .recursive (recorder f) r cells t cs log).2.1
+      (step1 .recursive (recorder f) r cells t cs log).2.2
+      (by rw [hl1]; exact h2) e2 a2
+    simp only [fixedLoop]
+    refine ⟨new1 ++ new2, by rw [b1, a1, List.append_assoc], b2, ?_, ?_, ?_⟩
+    · intro e he
+      rw [stepped_succ, occ_cons, List.mem_append]
+      rcases List.mem_append.mp he with h | h
+      · obtain ⟨c1, c2, c3⟩ := a3 e h
+        refine ⟨Or.inl ?_, c2, by omega, by omega⟩
+        rw [c1]
+        exact List.mem_map.mpr ⟨e.2.1, List.mem_range.mpr c2, rfl⟩
+      · obtain ⟨c1, c2, c3, c4⟩ := b3 e h
+        rw [e1] at c1
+        rw [hl1] at c2
+        exact ⟨Or.inr c1, c2, by omega, by omega⟩
+    · intro t0
+      rw [List.filter_append]
+      by_cases ht : t0 = t
+      · have hn2 : new2.filter (fun e => e.2.2 = t0) = [] := by
+          rw [List.filter_eq_nil_iff]
+          intro e he
+          have := (b3 e he).2.2.1
+          simp only [decide_eq_true_eq]; omega
+        have hn1 : new1.filter (fun e => e.2.2 = t0) = new1 := by
+          rw [List.filter_eq_self]
+          intro e he
+          have := (a3 e he).2.2
+          simp only [decide_eq_true_eq]; omega
+        rw [hn1, hn2, List.append_nil]; exact a4
+      · have hn1 : new1.filter (fun e => e.2.2 = t0) = [] := by
+          rw [List.filter_eq_nil_iff]
+          intro e he
+          have := (a3 e he).2.2
+          simp only [decide_eq_true_eq]; omega
+        rw [hn1, List.nil_append]; exact b4 t0
+    · rw [List.length_append, Nat.mul_succ]
+      rw [hl1] at b5
+      omega
+
+end Calls
+
 end Cpl
